@@ -276,6 +276,46 @@ func NAME(a int, b int) (res int) {
 	return res + int(m>>60) + n
 }
 `))
+	// loop bounds / starts / steps that are commutative expressions over parameters and over
+	// two composite values (the canonical operand order of such an expression must depend on
+	// neither the identifiers nor the source order)
+	n = next()
+	out = append(out, tmpl(n, SigII, true, []string{"scev-commutative", "loop-up"}, nil, `func NAME(a int, b int) (res int) {
+	lo, hi := a&3, b&7
+	for i := 0; i < lo+hi; i++ {
+		tick()
+		res += i
+	}
+	x := lo * hi
+	y := hi `+c("+", "*", "^")+` 3
+	for j := 0; j < `+c("x+y", "y+x", "x|y")+`; j += 2 {
+		tick()
+		res ^= j
+	}
+	return res
+}
+`))
+	// a loop whose start and limit are a long chain of invariant arithmetic: the rendering of
+	// the recurrence exceeds the length beyond which it is replaced by a digest
+	n = next()
+	out = append(out, tmpl(n, SigII, true, []string{"wide-scev", "loop-up"}, nil, `func NAME(a int, b int) (res int) {
+	x := a&3 + 1
+	m := b&3 + `+c("1", "2")+`
+	x = x + x*m
+	x = x + x*m
+	x = x + x*m
+	x = x + x*m
+	x = x + x*m
+	x = x + x*m
+	x = x + x*m
+	x = x + x*m
+	for i := x; i < x+`+c("4", "5")+`; i++ {
+		tick()
+		res += i & 15
+	}
+	return res
+}
+`))
 	// two back edges that update the loop variable differently
 	n = next()
 	out = append(out, tmpl(n, SigXI, true, []string{"multi-latch", "loop-continue"}, nil, `func NAME(xs []int, n int) (res int) {
@@ -799,6 +839,20 @@ func NAME(a int, b int) (res int) {
 `
 	}
 	out = append(out, mk("closure-capture-permutation/assignment", SigII, []string{"closure-val"}, cq("from", "to"), cq("to", "from")))
+	// a slice bound that changes sides of the colon (the instruction keeps the same operands,
+	// in another slot)
+	sb := func(e string) string {
+		return `func NAME(xs []int, n int) (res int) {
+	if n < 0 || n > len(xs) {
+		return -1
+	}
+	ys := ` + e + `
+	return len(ys)*100 + n
+}
+`
+	}
+	out = append(out, mk("slice-bound-side/low-high", SigXI, []string{"slice-ops"}, sb("xs[:n]"), sb("xs[n:]")))
+	out = append(out, mk("slice-bound-side/three-index", SigXI, []string{"slice-ops"}, sb("xs[n:len(xs)]"), sb("xs[:n:len(xs)]")))
 	gc := func(e string) string {
 		return `func catNAME[T ~string | ~int](x T, y T) T {
 	return ` + e + `
